@@ -8,7 +8,7 @@ use std::cmp::Ordering;
 use std::collections::VecDeque;
 
 /// a deque whose ring buffer is often wrapped around (push_front / pop_front mixed in)
-fn gen_deque(rng: &mut Rng, modulo: u8) -> VecDeque<u8> {
+pub(crate) fn gen_deque(rng: &mut Rng, modulo: u8) -> VecDeque<u8> {
     let mut d = VecDeque::with_capacity(rng.range(0, 8));
     for _ in 0..rng.range(0, 30) {
         match rng.below(8) {
@@ -24,7 +24,7 @@ fn gen_deque(rng: &mut Rng, modulo: u8) -> VecDeque<u8> {
     }
     d
 }
-fn view(d: &VecDeque<u8>) -> Vec<u8> {
+pub(crate) fn view(d: &VecDeque<u8>) -> Vec<u8> {
     (0..d.len()).map(|i| d[i]).collect()
 }
 fn pred(rng: &mut Rng) -> impl Fn(&u8) -> bool + Copy {
@@ -39,7 +39,7 @@ fn sorted<T: Ord + Clone>(v: &[T]) -> Vec<T> {
     s
 }
 /// `a@.to_multiset() == b@.to_multiset()`
-fn same_multiset<T: Ord + Clone>(a: &[T], b: &[T]) -> bool {
+pub(crate) fn same_multiset<T: Ord + Clone>(a: &[T], b: &[T]) -> bool {
     sorted(a) == sorted(b)
 }
 /// a type whose Clone is observable: the clone is one generation older
